@@ -73,7 +73,6 @@ func debugJSONTemporal() {
 	os.Exit(0)
 }
 
-
 func debugSigs(w *World) {
 	for _, pkg := range []*ssa.Package{w.Repl, w.Root} {
 		for n := range roleSignatures {
